@@ -282,6 +282,45 @@ func c12Run(e *core.Env) {
 	e.SetBound("declarations_reduced_alphabet", maxN)
 
 	e.BeginTail()
+	if e.Take() {
+		// a long price history in one included file (more directives than any batch a loader
+		// or converter might use): on every probed day the value of 1 AAA is the quote of that
+		// day, on the free-running binary with all CPUs and with one
+		var b strings.Builder
+		d0 := time.Date(2000, 1, 1, 0, 0, 0, 0, time.UTC)
+		const nq = 9000
+		for i := 0; i < nq; i++ {
+			fmt.Fprintf(&b, "%s price AAA %d CHF\n", d0.AddDate(0, 0, i).Format("2006-01-02"), 1000+i)
+		}
+		c12Drv := e.Driver()
+		c12Drv.Files(map[string]string{
+			"j.knut":      "include \"prices.knut\"\n1999-12-31 open Assets:Portfolio\n1999-12-31 open Equity:Opening\n\n2000-01-01 \"buy\"\nEquity:Opening Assets:Portfolio 1 AAA\n",
+			"prices.knut": b.String(),
+		})
+	history:
+		for rep := 0; rep < core.Pick(e, 1, 4); rep++ {
+			for _, procs := range core.Pick(e, []string{"", "4"}, []string{"", "1", "4"}) {
+				for _, i := range []int{0, 1, 9, 100, 511, 512, 513, 1023, 1024, 1025, 2047, 2048, 4095, 4096, 4097, 4200, 5000, 8191, 8192, 8193, nq - 1} {
+					e.Beat()
+					day := d0.AddDate(0, 0, i).Format("2006-01-02")
+					args := []string{"balance", "--color=false", "--csv", "-v", "CHF", "--to", day, "j.knut"}
+					var o *core.Outcome
+					if procs == "" {
+						o = c12Drv.RunBinaryFree(2*time.Minute, args...)
+					} else {
+						o = c12Drv.RunBinaryProcs(procs, args...)
+					}
+					e.Count("command_runs")
+					e.Count("evaluations")
+					want := fmt.Sprintf("Assets,\nPortfolio,%d\n", 1000+i)
+					if o.Exit != 0 || !strings.Contains(o.Stdout, want) {
+						e.Violation("C12:command:long-history", fmt.Sprintf("GOMAXPROCS=%q: knut %s\n1 AAA should be worth %d CHF (the quote of that day)\nexit %d\n%s%s", procs, strings.Join(args, " "), 1000+i, o.Exit, clip(o.Stdout, 600), clip(o.Stderr, 600)), c12Case{}, nil)
+						break history
+					}
+				}
+			}
+		}
+	}
 	// prices whose reciprocal or chain product sits next to an 8-decimal truncation boundary
 	// (a reciprocal of 0.12345678999999999..., 1/3, 1/7, the largest and smallest amounts):
 	// every single declaration and every two-step chain over them
